@@ -194,6 +194,7 @@ def run(chk):
                                   True, "`%s` does not describe where the nodes are" % what)
     stale = {}
     undecided = 0
+    judged_ok = {}
     # ---- history oracle
     hoff = 3 * len(docs) + len(derived)
     hdocs = evalcheck.impl_eval(hist)
@@ -217,6 +218,8 @@ def run(chk):
                 return [[str(x) for x in evalcheck.unser_paths(y)] for y in c03.split_items(r_[0])]
             except Exception:
                 return b
+        if got == want or texts(got) == texts(want):
+            judged_ok[i] = after
         if got != want and texts(got) != texts(want):
             # a rebuilt container written back into the document carries its stale keys with it: the recorded class,
             # provided the model (AddChild keeps a Key) predicts exactly this output
@@ -282,6 +285,112 @@ def run(chk):
             chk.known_finding("stale-key-" + op, "%s on %s -> %s" % (e, d, bad))
     for op, (expr, d, got, want) in sorted(stale.items()):
         chk.known_finding("stale-key-" + op, "%s on %s -> %s, expected %s" % (expr, json.dumps(d), got.decode("utf-8", "replace").strip()[:120], want.decode("utf-8", "replace").strip()[:120]))
+    # ---- key nodes too: `...` visits every map key before its value, and a key reports the position of its entry
+    def kpaths(v, pre=()):
+        out = [list(pre)]
+        if isinstance(v, dict):
+            for k_, x in v.items():
+                out.append(list(pre + (k_,)))
+                out += kpaths(x, pre + (k_,))
+        elif isinstance(v, list):
+            for i_, x in enumerate(v):
+                out += kpaths(x, pre + (i_,))
+        return out
+    kq = []
+    for i, (u, d) in enumerate(hist[: (3000 if thorough else 400)]):
+        if judged_ok.get(i):
+            kq.append((i, evalgen.render(u) + " | [... | path]", d))
+    for d in docs[: (1500 if thorough else 200)]:
+        kq.append((None, "[... | path]", d))
+    # a map written into the document by an assignment: its key nodes live in the document, not in the copy they came from
+    import copy as _copy
+    for _ in range(1500 if thorough else 250):
+        d = evalgen.gen_doc(chk.rng)
+        if not isinstance(d, dict):
+            continue
+        mps = [p_ for p_ in evalgen.doc_paths(d) if p_ and isinstance(evalgen._get(d, p_), dict) and len(evalgen._get(d, p_)) >= 1]
+        if not mps:
+            continue
+        mp = chk.rng.choice(mps)
+        form = chk.rng.choice(["assign", "literal", "update", "compound"])
+        after = _copy.deepcopy(d)
+        after.pop("zz", None)
+        if form == "assign":
+            e_ = ".zz = %s" % evalgen.render(path_expr(mp))
+            after["zz"] = _copy.deepcopy(evalgen._get(d, mp))
+        elif form == "literal":
+            e_ = ".zz = {\"k\": 1, \"j\": {\"m\": 2}}"
+            after["zz"] = {"k": 1, "j": {"m": 2}}
+        elif form == "update":
+            e_ = ".zz |= {\"k\": 1, \"j\": [3]}"
+            after["zz"] = {"k": 1, "j": [3]}
+        else:
+            e_ = ".zz = {\"k\": 1} | .zz += {\"j\": {\"m\": 2}}"
+            after["zz"] = {"k": 1, "j": {"m": 2}}
+        judged_ok[("kp", len(kq))] = after
+        kq.append((("kp", len(kq)), e_ + " | [... | path]", d))
+    kout = evalcheck.impl_eval([(e_, d_) for _, e_, d_ in kq])
+    for (i, e_, d_), b in zip(kq, kout):
+        res = evalcheck.results_of(b)
+        if res is None or len(res) != 1:
+            continue
+        after = judged_ok[i] if i is not None else d_
+        want = evalcheck.ser(kpaths(after))
+        chk.count(("keypaths", e_, json.dumps(d_)), nontrivial=True)
+        def ktexts(x):
+            # an integer-tagged map key (made by `.[-1] = v` on a map) prints as an int in some positions: compare element texts
+            try:
+                return [[str(y) for y in evalcheck.unser_paths(z)] for z in c03.split_items(x)]
+            except Exception:
+                return x
+        if res[0] != want and ktexts(res[0]) != ktexts(want) and len(chk.violations) < 6:
+            chk.violation({"kind": "eval", "expr": e_, "doc": d_, "impl": b.decode("utf-8", "replace"), "expect": (b"OK\n" + want + b"\n").decode("utf-8", "replace")},
+                          True, "key nodes do not report the position of their entry: " + e_)
+    # ---- renaming an entry through its key node: `(P | key) = "nk"` renames that entry, and path / key / keys agree afterwards
+    rn = []
+    for _ in range(1200 if thorough else 150):
+        d = evalgen.gen_doc(chk.rng)
+        mps = [p_ for p_ in evalgen.doc_paths(d) if p_ and isinstance(p_[-1], str) and p_[-1].isalpha()]
+        if not mps:
+            continue
+        tp = chk.rng.choice(mps)
+        pre = ""
+        if chk.rng.random() < 0.4 and len(tp) >= 2:
+            # first copy the surrounding map somewhere else, so that the renamed entry lives in a copied container
+            pre = ".zz = %s | " % evalgen.render(path_expr(tp[:-1]))
+            tp = ("zz",) + (tp[-1],)
+        rn.append((pre + "(%s | key) = \"nk\"" % evalgen.render(path_expr(tp)), d))
+    rreq = []
+    for e_, d_ in rn:
+        rreq += [(e_, d_), (e_ + " | [.. | path]", d_), (e_ + " | [.. | key]", d_), (e_ + " | [.. | select(tag == \"!!map\") | keys]", d_)]
+    rout = evalcheck.impl_eval(rreq)
+    for k, (e_, d_) in enumerate(rn):
+        o = rout[4 * k:4 * k + 4]
+        r0 = evalcheck.results_of(o[0])
+        if r0 is None or len(r0) != 1 or any(evalcheck.results_of(x) is None or len(evalcheck.results_of(x)) != 1 for x in o[1:]):
+            continue
+        try:
+            after = c02_unser(r0[0])
+        except Exception:
+            continue
+        ps = evalgen.doc_paths(after)
+        def allmaps(v):
+            out = []
+            if isinstance(v, dict):
+                out.append(list(v.keys()))
+                for x in v.values():
+                    out += allmaps(x)
+            elif isinstance(v, list):
+                for x in v:
+                    out += allmaps(x)
+            return out
+        wants = [evalcheck.ser([list(p_) for p_ in ps]), evalcheck.ser([p_[-1] for p_ in ps if p_]), evalcheck.ser(allmaps(after))]
+        chk.count(("rename", e_, json.dumps(d_)), nontrivial=True)
+        for name, got_, w_ in zip(("path", "key", "keys"), o[1:], wants):
+            if evalcheck.results_of(got_)[0] != w_ and len(chk.violations) < 6:
+                chk.violation({"kind": "eval", "expr": e_ + {"path": " | [.. | path]", "key": " | [.. | key]", "keys": " | [.. | select(tag == \"!!map\") | keys]"}[name], "doc": d_,
+                               "impl": got_.decode("utf-8", "replace"), "expect": (b"OK\n" + w_ + b"\n").decode("utf-8", "replace")}, True,
+                              "after renaming an entry through its key node, %s does not agree with the document" % name)
     # ---- YAML documents with anchors, aliases and merge keys: after explode (and after a further update) every node
     # reports the position it has in the resulting value (decoded afresh from its JSON text)
     ycases = []
